@@ -85,8 +85,12 @@ def unit_index():
         props = {"C03"}
         try:
             g = gen.Generator(repo=REPO, verif=VERIF).generate(u)
-            for (_, ps, _) in run.scan_tags(g.text().split("\n")):
-                props.update(ps)
+            lines = g.text().split("\n")
+            fake = run.UnitResult(u)
+            fake.tags, fake.items = run.scan_tags(lines), g.items
+            for t in classify_tags(fake, lines):
+                if t["counted"]:
+                    props.update(t["props"])
         except Exception:
             # fall back to the raw template + spec files
             txt = open(os.path.join(VERIF, "contracts", u + ".rs")).read()
